@@ -169,7 +169,7 @@ def rule_V1(ctx, R):
                               % " -> ".join(p), *_floc(f)))
         else:
             res.ok(f["path"])
-    res.need(236, "safe non-acquiring functions")
+    res.need(218, "safe non-acquiring functions")
     return res
 
 
@@ -196,7 +196,7 @@ def rule_E3(ctx, R):
             res.bad(Violation("E3", f["path"], "blocking", "try-style operation can wait: call path %s" % " -> ".join(p), *_floc(f)))
         else:
             res.ok(f["path"])
-    res.need(44, "try-style functions")
+    res.need(42, "try-style functions")
     return res
 
 
